@@ -90,6 +90,10 @@ def cases(rng, tier):
     # populated for pairs in the right half of a lattice with L >= 7 are complex-conjugated entries
     for L, ut, dt in {'quick': ((7, 'generic', 'complex'), (7, 'phase', 'real')), 'thorough': ((7, 'generic', 'complex'), (7, 'phase', 'real'), (8, 'generic', 'real'), (8, 'phase', 'complex')), 'search': ((7, 'generic', 'complex'),)}[tier]:
         out.append({'kind': 'gauge', 'L': L, 'seed': rng.getrandbits(30), 'dtype': dt, 'struct': 'dense', 'utype': ut})
+    if tier != 'thorough':
+        # the explicit spin construction has blocks that are only populated for L >= 5 (two orbitals in the right half): one sparse case,
+        # exact run + translation validation in Coq only (no dense reference at this size)
+        out.append({'kind': 'spin', 'L': 5, 'seed': rng.getrandbits(30), 'dtype': rng.choice(['real', 'complex']), 'struct': 'sparse', 'utype': 'swap', 'tvonly': True})
     if tier == 'thorough':
         # largest sizes: exact runs + Coq only (the dense reference of the spin model at L = 5 is out of reach)
         for kind, L, dt, st in (('mol', 7, 'complex', 'dense'), ('mol', 7, 'real', 'sparse'), ('spin', 4, 'complex', 'dense'),
